@@ -241,7 +241,10 @@ class WorldAdapter:
         env.ptypes = {}
         for t in topo(K['PTypes'], K['PBases']) if K['PTypes'] else []:
             bs = tuple(env.ptypes[b] for b in sorted(K['PBases'][t])) or (desper.Processor,)
-            ns = {'process': p_process, 'on_add': p_on_add, 'on_remove': p_on_remove, 'probe': probe}
+            ns = {'process': p_process, 'on_add': p_on_add, 'on_remove': p_on_remove, 'probe': probe,
+                  # like components, processors of every third behaviour all compare equal by value and hash alike
+                  '__eq__': lambda self, other: (self is other) or (env.equal and hasattr(other, '_verif_processor')),
+                  '__hash__': lambda self: 1 if env.equal else id(self) >> 4, '_verif_processor': True}
             if K['PDefault'][t] != 0 or bs != (desper.Processor,):
                 ns['priority'] = K['PDefault'][t]
             env.ptypes[t] = type(t, bs, ns)
